@@ -11,7 +11,7 @@ from typing import *
 from apischema.metadata import conversion
 
 def tag(i: int) -> str:
-    return f"#{i}"
+    return "#" + str(i)
 
 @dataclass
 class RNode{i}:
